@@ -9,12 +9,17 @@
 //	bX.n eX.n  the same, held inside PreStart on whichever node executes the local spawn / released
 //	L.n.k      from now on node n believes node k is the cluster coordinator
 //	K.n        Shutdown of the singleton instance hosted by node n, wait for the death watch
+//	fX.n       SpawnSingleton issued on node n (own cancellable context) while the spawn it must join is held: a FOLLOWER
+//	           of the single flight; prints `wait` when it is still waiting after the grace period (always, in the code as it is)
+//	cX.n       cancel the follower issued on node n and collect its result
+//	jX.n       collect the result of the follower issued on node n after the flight it joined has ended
 //
 // output: one token per op, then `| <digest>`
 package main
 
 import (
 	"context"
+	"errors"
 	"fmt"
 	"sort"
 	"strconv"
@@ -134,6 +139,8 @@ func nodeOf(pid *actor.PID) string {
 func showRes(pid *actor.PID, err error) string {
 	if err != nil {
 		switch {
+		case errors.Is(err, context.Canceled) || strings.Contains(err.Error(), context.Canceled.Error()):
+			return "cancelled"
 		case strings.Contains(err.Error(), gerrors.ErrRemoteSendFailure.Error()):
 			return "eloop"
 		default:
@@ -147,17 +154,35 @@ func showRes(pid *actor.PID, err error) string {
 }
 
 type pending struct {
-	done chan struct{}
-	pid  *actor.PID
-	err  error
-	gate chan struct{}
-	exec int
+	done   chan struct{}
+	pid    *actor.PID
+	err    error
+	gate   chan struct{}
+	exec   int
+	cancel context.CancelFunc
 }
 
 type run struct {
 	w     *world
 	views []int
 	held  map[int]*pending // caller node -> held spawn
+	fol   map[int]*pending // caller node -> follower of a held flight
+}
+
+// grace: how long a follower is given to (wrongly) finish before it is reported as waiting.
+const grace = 300 * time.Millisecond
+
+// hopsTo counts the membership reads a call issued on n performs before it reaches its executing node.
+func (r *run) hopsTo(n int) int {
+	cur, k := n, 0
+	for hops := 0; ; hops++ {
+		k++
+		l := r.views[cur]
+		if l == cur || hops >= len(r.views) {
+			return k
+		}
+		cur = l
+	}
 }
 
 // execNode follows the leader views from node n; -1 when the hop budget is exhausted
@@ -223,6 +248,9 @@ func (r *run) op(tok string) string {
 		if _, open := r.held[n]; open {
 			return "busy"
 		}
+		if _, open := r.fol[n]; open {
+			return "busy"
+		}
 		m := r.execNode(n)
 		if m >= 0 && r.busyOn(m) {
 			return "busy" // the call would join the single flight held open on node m and block
@@ -254,6 +282,79 @@ func (r *run) op(tok string) string {
 			}
 			r.held[n] = pd
 			return "pre" + strconv.Itoa(m)
+		case <-time.After(settle):
+			return "timeout"
+		}
+	case "fX":
+		n, ok := arg(1)
+		if !ok || len(f) != 2 {
+			return "bad-op"
+		}
+		if _, open := r.held[n]; open {
+			return "busy"
+		}
+		if _, open := r.fol[n]; open {
+			return "busy"
+		}
+		m := r.execNode(n)
+		if m < 0 || !r.busyOn(m) {
+			return "none"
+		}
+		fctx, cancel := context.WithCancel(ctx)
+		pd := &pending{done: make(chan struct{}), exec: m, cancel: cancel}
+		before := strings.Count(r.w.reg.Log(), "m")
+		want := r.hopsTo(n)
+		go func() {
+			pd.pid, pd.err = r.w.spawn(fctx, n)
+			close(pd.done)
+		}()
+		// deterministic part: the call has performed all its membership reads (then it reaches the flight)
+		if !r.regWait(func() bool { return strings.Count(r.w.reg.Log(), "m") >= before+want }) {
+			return "timeout"
+		}
+		r.fol[n] = pd
+		select {
+		case <-pd.done:
+			delete(r.fol, n)
+			cancel()
+			return showRes(pd.pid, pd.err) // a follower that did not wait for the flight it should have joined
+		case <-time.After(grace):
+			return "wait"
+		}
+	case "cX":
+		n, ok := arg(1)
+		if !ok || len(f) != 2 {
+			return "bad-op"
+		}
+		pd, open := r.fol[n]
+		if !open {
+			return "none"
+		}
+		delete(r.fol, n)
+		pd.cancel()
+		select {
+		case <-pd.done:
+			return showRes(pd.pid, pd.err)
+		case <-time.After(settle):
+			return "timeout"
+		}
+	case "jX":
+		n, ok := arg(1)
+		if !ok || len(f) != 2 {
+			return "bad-op"
+		}
+		pd, open := r.fol[n]
+		if !open {
+			return "none"
+		}
+		if r.busyOn(pd.exec) {
+			return "busy"
+		}
+		delete(r.fol, n)
+		defer pd.cancel()
+		select {
+		case <-pd.done:
+			return showRes(pd.pid, pd.err)
 		case <-time.After(settle):
 			return "timeout"
 		}
@@ -323,13 +424,17 @@ func (r *run) digest() string {
 	}
 	mx, started := r.w.max, r.w.started
 	r.w.mu.Unlock()
-	var held []string
+	var held, fol []string
 	for n := range r.held {
 		held = append(held, strconv.Itoa(n))
 	}
+	for n := range r.fol {
+		fol = append(fol, strconv.Itoa(n))
+	}
 	sort.Strings(held)
-	return fmt.Sprintf("R=%s live=%s max=%d started=%d held=%s log=%s", owner, strings.Join(live, ","), mx, started,
-		strings.Join(held, ","), strings.ReplaceAll(r.w.reg.Log(), " ", ","))
+	sort.Strings(fol)
+	return fmt.Sprintf("R=%s live=%s max=%d started=%d held=%s fol=%s log=%s", owner, strings.Join(live, ","), mx, started,
+		strings.Join(held, ","), strings.Join(fol, ","), strings.ReplaceAll(r.w.reg.Log(), " ", ","))
 }
 
 func runCase(line string) string {
@@ -361,7 +466,7 @@ func runCase(line string) string {
 		w.nodes = append(w.nodes, n)
 		w.bySys[n.Sys] = i
 	}
-	r := &run{w: w, views: make([]int, nn), held: map[int]*pending{}}
+	r := &run{w: w, views: make([]int, nn), held: map[int]*pending{}, fol: map[int]*pending{}}
 	var out []string
 	for _, t := range strings.Fields(parts[1]) {
 		out = append(out, vlib.Safe(func() string { return r.op(t) }))
@@ -371,6 +476,14 @@ func runCase(line string) string {
 		close(pd.gate)
 		<-pd.done
 		delete(r.held, n)
+	}
+	for n, pd := range r.fol {
+		select {
+		case <-pd.done:
+		case <-time.After(settle):
+		}
+		pd.cancel()
+		delete(r.fol, n)
 	}
 	return strings.Join(out, " ") + " | " + d
 }
